@@ -29,7 +29,7 @@ PAIRS = [(x, y) for x in "abc" for y in "abc" if x != y]
 
 
 def bound(tier):
-    return "complete for the listed expression/spelling/placement product; skips n in 0..64"
+    return "complete for the listed expression/spelling/placement product (%d link expressions); skips n in 0..64" % len(expressions(tier))
 
 
 def term(x, y, k, sp):
@@ -47,7 +47,7 @@ def term(x, y, k, sp):
 SPELL = ["plain", "grp", "half", "shr", "half2"]
 
 
-def expressions():
+def expressions(tier="quick"):
     """yield (text, value) of link expressions whose base dependence cancels"""
     out = []
     for (x, y) in PAIRS:
@@ -77,6 +77,19 @@ def expressions():
         out.append(("%o+%s*kf-%s*kf" % (K, x, y), K + v))
         out.append(("%o+kf*<%s-%s>" % (K, x, y), K + v))
         out.append(("%o-kf*%s+%s*kf" % (K, x, y), K - v))
+    if tier == "thorough":
+        # coefficients 3 and -3, three difference terms, differences of differences
+        for (x, y) in PAIRS:
+            d = OFF[x] - OFF[y]
+            out.append(("%o+3*<%s-%s>" % (K, x, y), K + 3 * d))
+            out.append(("%o-<%s-%s>*3" % (K, x, y), K - 3 * d))
+            out.append(("%o+%s+%s+%s-%s-%s-%s" % (K, x, x, x, y, y, y), K + 3 * d))
+        for (p1, p2, p3) in itertools.product(PAIRS, repeat=3):
+            v = sum(OFF[a] - OFF[b] for a, b in (p1, p2, p3))
+            out.append(("%o+<%s-%s>+<%s-%s>-<%s-%s>" % (K, p1[0], p1[1], p2[0], p2[1], p3[1], p3[0]), K + v))
+        for (p1, p2) in itertools.product(PAIRS, repeat=2):
+            v = (OFF[p1[0]] - OFF[p1[1]]) - (OFF[p2[0]] - OFF[p2[1]])
+            out.append(("%o+<<%s-%s>-<%s-%s> >" % (K, p1[0], p1[1], p2[0], p2[1]), K + v))
     # the classic: K + end - start in several orders, unbracketed
     out += [("c-a+%o" % K, K + 10), ("%o+c-a" % K, K + 10), ("c+%o-a" % K, K + 10), ("0-a+c+%o" % K, K + 10), ("%o+a-b" % K, K - 6), ("%o-a+b" % K, K + 6)]
     seen, res = set(), []
@@ -143,7 +156,7 @@ def make_program(directive, pos, deferred, symform, expr, colon=":", wrap=None):
 
 
 def cases(tier):
-    ex = expressions()
+    ex = expressions(tier)
     for i in range(0, len(ex), 12):
         yield {"k": "exprs", "lo": i, "hi": i + 12}
     yield {"k": "bad"}
@@ -191,7 +204,7 @@ def check(case, r, tier):
         judge_fail(r, [tuple(f) for f in case["files"]], None, case["fam"], case["why"])
         return
     if k == "exprs":
-        for expr, val in expressions()[case["lo"]:case["hi"]]:
+        for expr, val in expressions(tier)[case["lo"]:case["hi"]]:
             base = val & 0xFFFF
             _b, image = layout(base, False)
             for directive in (".link", ". ="):
